@@ -388,98 +388,102 @@ def build_any(r, T, dom, memo):
 # -------------------------------------------------------------------------------------------------
 
 
-def rows_worker(chunk):
-    """For each row x: the set {y : X[x] == X[y]} over ALL y, plus != on terminal rows and equal pairs."""
+def a_worker(chunk):
+    """Items ("row", label, x): the set {y : X[x] == X[y]} over ALL y (+ != laws);  ("obj", label, i): per-object laws."""
     part = Part()
-    X, A, ab = G["X"], G["attr"], G["ab"]
+    rows, sig, val = {}, {}, {}
+    for kind, label, k in chunk:
+        if kind == "row":
+            rows[(label, k)] = row_case(part, G["U"][label], k)
+        else:
+            sig[(label, k)], val[(label, k)] = object_case(part, G["U"][label], k)
+    d = part.dict()
+    d["rows"], d["sig"], d["val"] = rows, sig, val
+    return d
+
+
+def row_case(part, u, x):
+    X, A, ab, wit, forms = u["X"], u["attr"], G["ab"], u["wit"], u["forms"]
     M_ = len(X)
-    ne_all = G["ne_all"]
-    rows = {}
-    for x in chunk:
-        xx = X[x]
-        try:
-            if G["forms"]:
-                hits = [y for y in range(M_) if EQ(xx, X[y]) is not False]
-            else:
-                hits = [y for y in range(M_) if (xx == X[y]) is not False]
-        except Exception:
-            hits = []
-            for y in range(M_):
-                try:
-                    if EQ(xx, X[y]) is not False:
-                        hits.append(y)
-                except Exception as e:
-                    part.violation(pair_key("eq-raises", xx, X[y], ab), f"== raised {type(e).__name__}: {e}", G["wit"](x, y))
+    xx = X[x]
+    try:
+        if forms:
+            hits = [y for y in range(M_) if EQ(xx, X[y]) is not False]
+        else:
+            hits = [y for y in range(M_) if (xx == X[y]) is not False]
+    except Exception:
+        hits = []
+        for y in range(M_):
+            try:
+                if EQ(xx, X[y]) is not False:
+                    hits.append(y)
+            except Exception as e:
+                part.violation(pair_key("eq-raises", xx, X[y], ab), f"== raised {type(e).__name__}: {e}", wit(x, y))
+    part.inc("transitions", M_)
+    for y in hits:
+        if EQ(xx, X[y]) is not True:
+            part.violation(pair_key("eq-not-bool", xx, X[y], ab), "== did not return a bool", wit(x, y))
+        if (xx != X[y]) is not False:
+            part.violation(pair_key("ne-consistent", xx, X[y], ab), "a==b and a!=b", wit(x, y))
+        if forms and isinstance(xx, ufl.Form) and not bool(xx == X[y]):
+            part.violation(pair_key("equation-bool", xx, X[y], ab), "a.equals(b) but not bool(a==b)", wit(x, y))
+    if x in u["ne_all"]:
+        hs = set(hits)
+        isform = forms and isinstance(xx, ufl.Form)
+        for y in range(M_):
+            n = xx != X[y]
+            if n is not (y not in hs):
+                part.violation(pair_key("ne-consistent", xx, X[y], ab), f"a!=b is {n!r}", wit(x, y))
+            if isform and bool(xx == X[y]) is not (y in hs):
+                part.violation(pair_key("equation-bool", xx, X[y], ab), "bool(a==b) differs from a.equals(b)", wit(x, y))
         part.inc("transitions", M_)
-        for y in hits:
-            if EQ(xx, X[y]) is not True:
-                part.violation(pair_key("eq-not-bool", xx, X[y], ab), "== did not return a bool", G["wit"](x, y))
-            if (xx != X[y]) is not False:
-                part.violation(pair_key("ne-consistent", xx, X[y], ab), "a==b and a!=b", G["wit"](x, y))
-            if G["forms"] and isinstance(xx, ufl.Form) and not bool(xx == X[y]):
-                part.violation(pair_key("equation-bool", xx, X[y], ab), "a.equals(b) but not bool(a==b)", G["wit"](x, y))
-        if x in ne_all:
-            hs = set(hits)
-            for y in range(M_):
-                n = xx != X[y]
-                if n is not (y not in hs):
-                    part.violation(pair_key("ne-consistent", xx, X[y], ab), f"a!=b is {n!r}", G["wit"](x, y))
-                if G["forms"] and isinstance(xx, ufl.Form) and bool(xx == X[y]) is not (y in hs):
-                    part.violation(pair_key("equation-bool", xx, X[y], ab), "bool(a==b) differs from a.equals(b)", G["wit"](x, y))
-            part.inc("transitions", M_)
-        rows[x] = hits
-        # the row object took part in M_ comparisons (and was rewritten by every successful one): unchanged?
-        if attrs(xx) != A[x]:
-            part.violation(
-                f"compare-mutates:{ab(A[x][0])}",
-                "repr/hash/str/shape of an object changed after comparing it with the universe",
-                G["wit"](x, x),
-            )
-    d = part.dict()
-    d["rows"] = rows
-    return d
+    # the row object took part in M_ comparisons (and was rewritten by every successful one): unchanged?
+    if attrs(xx) != A[x]:
+        part.violation(
+            f"compare-mutates:{ab(A[x][0])}",
+            "repr/hash/str/shape of an object changed after comparing it with the universe",
+            wit(x, x),
+        )
+    return hits
 
 
-def object_worker(chunk):
-    """Per-object laws + signature and value of copy-A objects."""
+def object_case(part, u, i):
+    """Per-object laws + signature and value of a copy-A object."""
+    o = u["X"][i]
+    part.inc("transitions", 3)
+    for key, what in check_object(o, G["ab"], G["ns"], u["flags"](i)):
+        part.violation(key, what, {"part": "A-obj", "r": u["recipes"][i], "show": U.show_any(u["recipes"][i])})
+    part.inc("validated")
+    s = signature_of(o, G["dom"])
+    part.count("signature_" + s[0])
+    v = value_of(o)
+    part.count("value_" + v[0])
+    if v[0] == "ok":
+        part.inc("evaluations")
+        part.outcome(v[1])
+    return s, v
+
+
+def xpickle_case(chunk):
+    """Unpickle objects written by an interpreter with another str hash seed; compare with the local copy.
+
+    Runs in a forked child of its own (see isolated): unpickling may overwrite the cached hash of process-wide
+    UFL singletons, which must not leak into any other case.
+    """
     part = Part()
-    X, ab, ns, dom = G["X"], G["ab"], G["ns"], G["dom"]
-    sig, val = {}, {}
-    for i in chunk:
-        o = X[i]
-        flags = G["flags"](i)
-        part.inc("transitions", 3)
-        for key, what in check_object(o, ab, ns, flags):
-            part.violation(key, what, {"part": "A-obj", "r": G["recipes"][i], "show": U.show_any(G["recipes"][i])})
-        part.inc("validated")
-        s = signature_of(o, dom)
-        part.count("signature_" + s[0])
-        sig[i] = s
-        v = value_of(o)
-        part.count("value_" + v[0])
-        val[i] = v
-        if v[0] == "ok":
-            part.inc("evaluations")
-            part.outcome(v[1])
-    d = part.dict()
-    d["sig"], d["val"] = sig, val
-    return d
-
-
-def xpickle_worker(chunk):
-    """Unpickle objects written by an interpreter with another str hash seed; compare with the local copy."""
-    part = Part()
-    X, ab, blobs = G["X"], G["ab"], G["blobs"]
+    ab = G["ab"]
     fi0 = C.FixedIndex(0)
-    for i in chunk:
-        if blobs[i] is None:
+    for label, i in chunk:
+        u = G["U"][label]
+        blob = u["blobs"][i]
+        if blob is None:
             continue
-        o = X[i]
+        o = u["X"][i]
         a0 = attrs(o)
         h_fi = hash(fi0)
-        wit = {"part": "X", "r": G["recipes"][i], "show": U.show_any(G["recipes"][i]), "foreign_seed": XSEED}
+        wit = {"part": "X", "r": u["recipes"][i], "show": U.show_any(u["recipes"][i]), "foreign_seed": XSEED}
         try:
-            p = pickle.loads(blobs[i])
+            p = pickle.loads(blob)
         except BaseException as e:  # noqa: BLE001
             if isinstance(e, (KeyboardInterrupt, SystemExit, MemoryError)):
                 raise
@@ -497,6 +501,49 @@ def xpickle_worker(chunk):
             )
             fi0._hash = h_fi  # keep the following cases independent of this one
     return part.dict()
+
+
+def isolated(f, arg):
+    """Run f(arg) in a forked child and return its (picklable) result."""
+    r, w = os.pipe()
+    pid = os.fork()
+    if pid == 0:
+        code = 0
+        try:
+            os.close(r)
+            try:
+                data = pickle.dumps(("ok", f(arg)))
+            except BaseException as e:  # noqa: BLE001
+                import traceback
+
+                data = pickle.dumps(("error", f"{type(e).__name__}: {e}\n{traceback.format_exc()}"))
+            with os.fdopen(w, "wb") as fh:
+                fh.write(data)
+        except BaseException:  # noqa: BLE001
+            code = 3
+        os._exit(code)
+    os.close(w)
+    with os.fdopen(r, "rb") as fh:
+        data = fh.read()
+    os.waitpid(pid, 0)
+    status, res = pickle.loads(data)
+    if status != "ok":
+        raise RuntimeError("isolated case failed: " + res)
+    return res
+
+
+def b_worker(chunk):
+    """Final pass: foreign pickles (each chunk in a child of its own) and histories."""
+    part = Part()
+    d = part.dict()
+    out = [d]
+    xp = [it[1:] for it in chunk if it[0] == "xp"]
+    if xp:
+        out.append(isolated(xpickle_case, xp))
+    hs = [it[1:] for it in chunk if it[0] == "hist"]
+    if hs:
+        out.append(H.hist_worker(hs))
+    return {"parts": out}
 
 
 def xpickle_laws(o, p, a0, ab):
@@ -632,17 +679,22 @@ def part_a(run, recipes, forms, label):
     else:
         # != and bool(Equation) on all pairs of every row
         term_rows = set(range(2 * N))
-    G.update(X=X, attr=A, forms=forms, wit=wit, ne_all=term_rows, recipes=recipes, flags=flags)
+    usable = [not (stock[i] or plain[i] or fresh[i]) for i in range(N)]
+    u = dict(X=X, attr=A, forms=forms, wit=wit, ne_all=term_rows, recipes=recipes, flags=flags, usable=usable, N=N)
 
-    # 1. the relation
+    # 1. the relation, and the per-object laws / signature / value of copy A
     tick(f"{label}: attrs done")
-    E = {}
-    for d in pmap(rows_worker, list(range(2 * N)), seed=run.seed):
+    G.setdefault("U", {})[label] = u
+    E, sig, val = {}, {}, {}
+    items = [("row", label, x) for x in range(2 * N)] + [("obj", label, i) for i in range(N)]
+    for d in pmap(a_worker, items, seed=run.seed):
         run.merge(d)
-        E.update(d["rows"])
+        E.update({k[1]: v for k, v in d["rows"].items()})
+        sig.update({k[1]: v for k, v in d["sig"].items()})
+        val.update({k[1]: v for k, v in d["val"].items()})
     run.validated += (2 * N) * (2 * N)
     run.count(f"{label}_pairs_compared", (2 * N) * (2 * N))
-    tick(f"{label}: relation done")
+    tick(f"{label}: relation and object laws done")
     Eset = {x: frozenset(v) for x, v in E.items()}
     by_repr = {}
     for x in range(2 * N):
@@ -690,13 +742,7 @@ def part_a(run, recipes, forms, label):
     # near pairs: same type, different repr (they differ in some datum) -- must all be unequal
     run.count(f"{label}_equivalence_classes", len(set(Eset.values())))
 
-    # 2. per-object laws, signature, value
-    tick(f"{label}: pair laws done")
-    sig, val = {}, {}
-    for d in pmap(object_worker, list(range(N)), seed=run.seed):
-        run.merge(d)
-        sig.update(d["sig"])
-        val.update(d["val"])
+    # 2. signature and value of equal objects
     for x in range(N):
         for y in Eset[x]:
             j = y % N
@@ -714,15 +760,7 @@ def part_a(run, recipes, forms, label):
                 if not hit:
                     raise RuntimeError("bulk signature/value difference not reproduced on the pair")
 
-    # 3. pickles from another interpreter
-    tick(f"{label}: object laws done")
-    usable = [not (stock[i] or plain[i] or fresh[i]) for i in range(N)]
-    G["blobs"] = foreign_blobs(recipes, usable)
-    run.count(f"{label}_foreign_pickles", sum(usable))
-    for d in pmap(xpickle_worker, list(range(N)), seed=run.seed):
-        run.merge(d)
-
-    tick(f"{label}: foreign pickles done")
+    tick(f"{label}: pair laws done")
     run.states += N
     run.count(f"{label}_objects", 2 * N)
     for i in range(0, N, max(1, N // 5)):
@@ -771,10 +809,30 @@ def main(argv):
         foreign_hash_seed=XSEED,
     )
 
-    # ---- Part B: histories
-    tick("histories")
-    H.run_histories(run, quick)
-    tick("histories done")
+    # ---- foreign pickles of both universes (one foreign interpreter) + Part B: histories, in one parallel pass
+    tick("foreign interpreter")
+    items = []
+    labels = ["expr", "form"]
+    allr, allu = [], []
+    for label in labels:
+        u = G["U"][label]
+        allr += u["recipes"]
+        allu += u["usable"]
+    blobs = foreign_blobs(allr, allu)
+    off = 0
+    for label in labels:
+        u = G["U"][label]
+        u["blobs"] = blobs[off : off + u["N"]]
+        off += u["N"]
+        run.count(f"{label}_foreign_pickles", sum(u["usable"]))
+        idx = [i for i in range(u["N"]) if u["usable"][i]]
+        items += [("xp", label, i) for i in idx]
+    tick("histories + foreign pickles")
+    items += [("hist",) + it for it in H.history_items(run, quick)]
+    for d in pmap(b_worker, items, seed=run.seed, chunks_per_proc=8):
+        for part in d["parts"]:
+            run.merge(part)
+    tick("done")
 
     run.rule = (
         "Part A: every recipe of the stated grammar, built twice; == on ALL ordered pairs of the 2N objects; a state is a distinct "
